@@ -85,6 +85,12 @@ func newCancel(parent Context) *cancelCtx {
 		panic("cannot create context from nil parent")
 	}
 	c := &cancelCtx{parent: parent, obj: vs.NewObj("ctx"), done: vs.MakeChan[struct{}]()}
+	c.obj.State = func() uint64 {
+		if c.err != nil {
+			return 1
+		}
+		return 0
+	}
 	if p := nearest(parent); p != nil {
 		if p.err != nil {
 			c.markNoPoint(p.err)
